@@ -105,6 +105,11 @@ func GenStep(t *rapid.T, w *World, o Opts) *Step {
 		}
 		return &Step{Kind: KTran, Acts: acts, End: end, Text: actsText(acts)}
 	case r < o.Admin+o.Tran+o.Persist:
+		if w.Stats.LastWasPersist && len(w.Tables) > 0 {
+			// a persist right after a persist writes nothing: change something
+			acts := GenActions(t, w, o, uniform(t, "nacts", 1, 3))
+			return &Step{Kind: KTran, Acts: acts, End: "commit", Text: actsText(acts)}
+		}
 		return &Step{Kind: KPersist}
 	case r < o.Admin+o.Tran+o.Persist+o.Reopen:
 		st := &Step{Kind: KReopen}
